@@ -162,7 +162,7 @@ func ruleC07Contexts(c *ctx.Ctx, r *core.Reporter) {
 			// the arm precedes the generic per-lhs-kind switch (which would alias)
 			var generic token.Pos
 			ast.Inspect(fd.Body, func(n ast.Node) bool {
-				if ts, ok := n.(*ast.TypeSwitchStmt); ok && strings.Contains(nodeString(c, ts.Assign), "lhs.(type)") {
+				if ts, ok := n.(*ast.TypeSwitchStmt); ok && strings.Contains(nodeString(c, ts.Assign), firstParamName(fd)+".(type)") {
 					generic = ts.Pos()
 				}
 				return true
@@ -170,19 +170,24 @@ func ruleC07Contexts(c *ctx.Ctx, r *core.Reporter) {
 			r.Check(generic != token.NoPos && arm.Pos() < generic, "assign:copy-before-plain-store", c.Pos(arm.Pos()), "the copying arm is evaluated before the plain `lhs = rhs` translations")
 			// the copying arm may only be bypassed by the reviewed conditions: every enclosing `if` of the arm's
 			// switch is the single negated reflect.Value flag
+			// the reviewed exception flag: set to true exactly under the test "the destination type is reflect.Value"
+			reflectFlag := ""
+			for _, m := range findGoPattern(fd.Body, `if µn, µok := µt.(*types.Named); µok && µn.Obj().Pkg() != nil && µn.Obj().Pkg().Path() == "reflect" && µn.Obj().Name() == "Value" { µflag = true }`) {
+				reflectFlag = m.Env["µflag"]
+			}
 			extra := ""
 			for _, cd := range enclosingConds(fd.Body, arm.Pos()) {
 				if strings.HasPrefix(cd, "case ") {
 					continue
 				}
-				if squash(cd) != "!isReflectValue" {
+				if squash(cd) != "!"+reflectFlag {
 					extra = cd
 				}
 			}
 			r.Check(extra == "", "assign:no-extra-bypass", c.Pos(arm.Pos()), ternary(extra == "", "the copy is skipped only for reflect.Value", fmt.Sprintf("the copying arm is additionally guarded by %q: under that condition an array or struct is stored by reference, so pointers taken to the destination earlier no longer observe it (and the source is aliased)", extra)))
 			// the only bypasses are the reviewed ones
-			src := nodeString(c, fd.Body)
-			r.Check(strings.Contains(src, `named.Obj().Pkg().Path() == "reflect" && named.Obj().Name() == "Value"`), "assign:bypass:reflect.Value", c.Pos(fd.Pos()), "the only named type exempt from copying is reflect.Value (reviewed performance exception)")
+			_ = nodeString
+			r.Check(reflectFlag != "", "assign:bypass:reflect.Value", c.Pos(fd.Pos()), "the only named type exempt from copying is reflect.Value (reviewed performance exception)")
 			// every return that precedes the copying arm is a bypass of it; the reviewed ones are the map store
 			// (which clones through the helper, see must-clone:map-store) and the definition from a composite
 			// literal — where "definition" must be a conjunct of the guard: for a plain assignment the
@@ -397,6 +402,116 @@ func ruleC07Deep(c *ctx.Ctx, r *core.Reporter) {
 		ok := strings.Contains(src, p[1]+".zero()") && strings.Contains(src, p[1]+".copy(clone,"+p[0]+")") && strings.Contains(src, "returnclone")
 		r.Check(ok, "clone:zero+copy", cl.Pos(), "$clone(src, type) returns type.zero() filled by type.copy(clone, src)")
 	}
+	// $copyArray is a memmove: source and destination may be the same backing array (copy(s[1:], s),
+	// append(s[:i+1], s[i:]...)). Every ascending element-wise loop therefore needs, before it, the
+	// descending loop for the overlapping case dst === src && dstOffset > srcOffset.
+	if ca := c.PreludeFunc("$copyArray"); ca != nil {
+		ps := funcParams(ca)
+		if len(ps) < 4 {
+			r.Undecided("copyArray:overlap", ca.Pos(), "unexpected parameter list")
+		} else {
+			dst, src, dOff, sOff := ps[0], ps[1], ps[2], ps[3]
+			isOverlapTest := func(t *ctx.JSNode) bool {
+				q := squash(t.Src())
+				return strings.Contains(q, dst+"==="+src) && strings.Contains(q, dOff+">"+sOff)
+			}
+			n := 0
+			ca.Walk(func(x *ctx.JSNode) bool {
+				if !x.Is("ForStatement") || x.N("update") == nil || squash(x.N("update").Src()) == "" {
+					return true
+				}
+				up := squash(x.N("update").Src())
+				if !strings.HasSuffix(up, "++") {
+					return true
+				}
+				bodySrc := squash(x.N("body").Src())
+				if !strings.Contains(bodySrc, dst+"[") || !strings.Contains(bodySrc, src+"[") {
+					return true
+				}
+				n++
+				// siblings before x in the same statement list
+				okGuard := false
+				if p := x.Parent; p != nil {
+					var list []*ctx.JSNode
+					switch {
+					case p.Is("BlockStatement"), p.Is("Program"):
+						list = p.L("body")
+					case p.Is("SwitchCase"):
+						list = p.L("consequent")
+					}
+					for _, sib := range list {
+						if sib == x {
+							break
+						}
+						if sib.Is("IfStatement") && isOverlapTest(sib.N("test")) {
+							cons := sib.N("consequent")
+							hasDown, hasRet := false, false
+							cons.Walk(func(y *ctx.JSNode) bool {
+								if y.Is("ForStatement") && y.N("update") != nil && strings.HasSuffix(squash(y.N("update").Src()), "--") {
+									hasDown = true
+								}
+								if y.Is("ReturnStatement") {
+									hasRet = true
+								}
+								return true
+							})
+							okGuard = hasDown && hasRet
+						}
+					}
+				}
+				r.Check(okGuard, fmt.Sprintf("copyArray:overlap-safe#%d", n), x.Pos(), "an ascending element-wise copy loop is preceded by the descending loop for overlapping ranges of one backing array (memmove semantics of copy and append)")
+				return true
+			})
+			r.Check(n >= 2, "copyArray:loops", ca.Pos(), fmt.Sprintf("$copyArray has element-wise loops for composite and for plain elements (%d)", n))
+		}
+	}
+
+	// a slice is (array, offset, length): whoever hands <s>.$array to $copyArray must hand <s>.$offset with it
+	nca := 0
+	for _, f := range c.PreludeList() {
+		f.AST.Walk(func(x *ctx.JSNode) bool {
+			if !x.Is("CallExpression") || x.N("callee").IdentName() != "$copyArray" || len(x.L("arguments")) < 4 {
+				return true
+			}
+			args := x.L("arguments")
+			for k := 0; k < 2; k++ {
+				a := args[k]
+				if a.Is("MemberExpression") && a.MemberName() == "$array" {
+					nca++
+					owner := squash(a.N("object").Src())
+					off := squash(args[k+2].Src())
+					r.Check(strings.Contains(off, owner+".$offset"), fmt.Sprintf("copyArray:offset-with-array:%s#%d", ctx.JSFuncName(x.EnclosingFunc()), nca), x.Pos(), fmt.Sprintf("$copyArray is given %s.$array together with %s.$offset (offset argument: `%s`)", owner, owner, off))
+				}
+			}
+			return true
+		})
+	}
+	r.Check(nca >= 3, "copyArray:slice-operands", "compiler/prelude", fmt.Sprintf("%d slice operands of $copyArray examined", nca))
+	// growing a slice allocates a new backing array: arrays and structs are values and must be copied into
+	// it, not shared with the old one
+	if gs := c.PreludeFunc("$growSlice"); gs != nil {
+		sliced := false
+		cloned := false
+		gs.Walk(func(x *ctx.JSNode) bool {
+			if x.Is("CallExpression") && x.N("callee").Is("MemberExpression") && x.N("callee").MemberName() == "slice" {
+				sliced = true
+			}
+			if x.Is("IfStatement") {
+				t := squash(x.N("test").Src())
+				if strings.Contains(t, "$kindArray") && strings.Contains(t, "$kindStruct") {
+					c2 := squash(x.N("consequent").Src())
+					if (strings.Contains(c2, "$clone(") || strings.Contains(c2, ".copy(")) && strings.Contains(c2, "for(") {
+						cloned = true
+					}
+				}
+			}
+			return true
+		})
+		r.Check(!sliced || cloned, "growSlice:composite-elements-copied", gs.Pos(), "the new backing array made by Array.prototype.slice (a shallow copy) gets its own copies of array and struct elements")
+	} else {
+		r.Undecided("growSlice:composite-elements-copied", "compiler/prelude/prelude.js", "$growSlice not found")
+	}
+
 }
 
 // followDelegation: if fd's body is a single `return fc.other(...)`, analyse that method instead.
